@@ -1,12 +1,12 @@
 from harness.props import base
 from harness import preds
 LEVEL = 'proof'
-VFILES = ['RegexFacts.v', 'Tok.v', 'TokFacts.v', 'TokTiles.v', 'TokShape.v', 'TokPos.v', 'Prefix.v', 'PrefixTiles.v', 'Properties/C09.v']
+VFILES = ['RegexFacts.v', 'Tok.v', 'TokFacts.v', 'TokTiles.v', 'TokShape.v', 'TokBlockPos.v', 'TokPos.v', 'Prefix.v', 'PrefixTiles.v', 'Properties/C09.v']
 TECHNIQUE = 'Coq invariant proof over the Gallina port of tokenize_lines (token stream tiles the input; one end marker; zero-width balanced INDENT/DEDENT; for all inputs) + regenerated regex tables with a shape obligation + tok/prefix/re correspondence + predicate search'
 EXPLANATION = ('Proved for all inputs (TokTiles.tok_tiles, instantiated in Properties/C09.v with the regenerated token collections): whenever the guarded Gallina '
                'port of tokenize_lines returns tokens, the concatenation of prefix+string over the stream is the concatenation of the lines (and the text itself via '
                'split_keep_concat); and (TokShape.tok_shape) the stream is body ++ [ENDMARKER] with no end marker in body, every INDENT/DEDENT zero-width, and a depth walk that never goes negative and ends at 0 (balance over the whole stream and every prefix). Guards: at five places the model returns Err Guard where the Python code silently relies on f-string bookkeeping facts; the tok '
-               'stream shows model = implementation (never Guard) on every generated input. Token start positions are proved too (TokPos.tok_positions, see C03). split_prefix tiles the prefix whenever it returns parts (PrefixTiles.split_prefix_tiles, shape obligation on the regenerated prefix regex; model guard: an empty value only at the end). Prefix purity and prefix splitting '
+               'stream shows model = implementation (never Guard) on every generated input. Token start positions are proved too (TokPos.tok_positions, see C03; and TokBlockPos.tok_block_positions: every INDENT/DEDENT token carries the position of the next real token). split_prefix tiles the prefix whenever it returns parts (PrefixTiles.split_prefix_tiles, shape obligation on the regenerated prefix regex; model guard: an empty value only at the end). Prefix purity and prefix splitting '
                'are not proved (C09_partial): tok/prefix/re correspondence + predicates on implementation output; split_prefix has known finding F2.')
 LEVEL_TEXT = EXPLANATION
 
